@@ -29,7 +29,8 @@ def main():
         if a.replay:
             return mod.replay(ctx, a.replay)
         if not a.no_build:
-            ctx.build = common.build(pid, bridge_modules=getattr(mod, 'BRIDGE', ()), props_modules=getattr(mod, 'PROPS', None))
+            ctx.build = common.build(pid, bridge_modules=getattr(mod, 'BRIDGE', ()), props_modules=getattr(mod, 'PROPS', None),
+                                     recheck=(a.tier == 'thorough'))
         mod.run(ctx)
         return ctx.finish()
     except common.HarnessError as e:
